@@ -43,6 +43,23 @@ def build():
     out.append(coq_strs("HELP_TRAILING", hl[0], "_is_version_or_help: last token of a command of at most four words"))
     sc = in_tuples(func(an, "_analyze_simple_command"), "ladder")
     out.append(coq_strs("COMMAND_V_FLAGS", pick(sc, ["-v", "-V"], "command -v"), "_analyze_simple_command: command -v/-V"))
+    wf = module_assign(an, "WRAPPER_FLAGS_WITH_ARG")
+    if not isinstance(wf, ast.Dict):
+        raise TieBroken("WRAPPER_FLAGS_WITH_ARG: expected a dict literal")
+    rows = []
+    for k, v in zip(wf.keys, wf.values):
+        if not (isinstance(k, ast.Constant) and isinstance(k.value, str)):
+            raise TieBroken("WRAPPER_FLAGS_WITH_ARG: non-string key")
+        flags = sorted(set(const_strs(v, "WRAPPER_FLAGS_WITH_ARG[" + k.value + "]")))
+        rows.append("(" + coq_str(k.value) + ", [" + "; ".join(coq_str(f) for f in flags) + "])")
+    out.append("(* core/analyzer.py WRAPPER_FLAGS_WITH_ARG *)\nDefinition WRAPPER_FLAGS_WITH_ARG : list (str * list str) :=\n  ["
+               + ";\n   ".join(sorted(rows)) + "].\n")
+    wo = module_assign(an, "WRAPPER_OPERANDS")
+    if not (isinstance(wo, ast.Dict) and all(isinstance(k, ast.Constant) and isinstance(v, ast.Constant) and isinstance(v.value, int)
+                                             and 0 <= v.value < 10 for k, v in zip(wo.keys, wo.values))):
+        raise TieBroken("WRAPPER_OPERANDS: expected a dict literal of small ints")
+    out.append("(* core/analyzer.py WRAPPER_OPERANDS *)\nDefinition WRAPPER_OPERANDS : list (str * nat) :=\n  ["
+               + "; ".join("(" + coq_str(k.value) + ", " + str(v.value) + "%nat)" for k, v in sorted(zip(wo.keys, wo.values), key=lambda kv: kv[0].value)) + "].\n")
     cd = in_tuples(func(an, "_extract_cd_target"), "cd")
     out.append(coq_strs("CD_DYNAMIC_PARTS", pick(cd, ["cmdsub", "param"], "cd dynamic parts"), "_extract_cd_target: part kinds that make the target non-literal"))
     ex = in_tuples(func(an, "_analyze_expansion"), "expansion")
